@@ -77,14 +77,15 @@ let () =
          add "SS" (spec_str (spec_find_list p p.p_sanchor s init));
          add "SM" (spec_str (spec_find_list p false s init));
          add "BRP" (if backref_to_position p then "1" else "0");
+         add "WF" (if wf_pattern p then "1" else "0");
          if mode = "a" then begin
            add "F" (dres_str (fst (find_im p fuel s Z0 (ptn = []) init)) ^ "|" ^ dres_str (find_s p s init));
            add "M" (dres_str (fst (match_im p fuel s Z0 init)) ^ "|" ^ dres_str (match_s p s init));
            let (l, fin) = gmatch_im p fuel s Z0 init in
            add "GM" (seq_str l (dres_str fin) ^ "|" ^ seq_str (gmatch_s p s init) "nil");
-           let ((r, sk), eb) = gsub_im p fuel s Z0 repl maxn in
+           let (r, sk) = gsub_im p fuel s Z0 repl maxn in
            add "GS" (dres_str r ^ "|" ^ dres_str (gsub_s p s repl maxn) ^ "|"
-                     ^ (if sk then "k" else "") ^ (if eb then "e" else ""))
+                     ^ (if sk then "k" else ""))
          end
        | _ -> ());
       print_endline (Buffer.contents buf)
